@@ -1,1 +1,308 @@
-(* placeholder *)
+(** C12 — the request queue behind the SQL entry point.
+    "When many callers issue SQL statements concurrently, every call returns
+    exactly one result that belongs to its own statement; each statement
+    takes effect exactly once even if it was internally aborted and retried;
+    no call blocks forever."
+
+    All statements are about every state reachable in the model
+    Model/ReqMgr.v (request_manager.go + ExecuteSQL/ExecuteSQLForTxnTh) by ANY
+    schedule — any interleaving of any number of callers, worker goroutines
+    and the run loop, with any pattern of concurrency-control aborts.  The
+    channel capacity [c] and the worker limit [m] are parameters; the real
+    system is [c = chan_capacity = 100], [m = max_txn_thread_num = 24].
+
+    MODEL-PREDICTED FINDING F-REQ-DEADLOCK ("no call blocks forever" is false
+    at capacity).  The run loop hands a result to its caller over an
+    unbuffered channel while the caller may not yet have sent its wake-up
+    token into the 100-slot channel that the loop itself drains.  If the
+    channel fills up in that window (>= capacity pending senders: tokens of
+    other callers and results of workers), the loop and the caller block on
+    each other and, with them, every other caller and worker:
+    [no_deadlock_refuted] (witness with the real parameters, 102 callers) and
+    [deadlock_at_capacity_refuted] (capacity 2, 4 callers).  This is the only
+    way to get stuck ([deadlock_characterisation]); it needs at least
+    [c - m] = 76 tokens in the channel, hence more than 76 callers
+    ([deadlock_needs_capacity], [no_deadlock_few_callers]).
+    Statements only. *)
+From Coq Require Import List NArith Bool.
+From SDB Require Import Params Base.Assoc Model.ReqMgr Proofs.ReqMgrProofs.
+Import ListNotations.
+Open Scope nat_scope.
+
+Definition reachable (c m : N) (s : rstate) : Prop :=
+  exists schedule, rrun schedule (rinit c m) = Some s.
+
+(** The real parameters satisfy the side conditions used below. *)
+Example real_parameters :
+  N.leb 1 chan_capacity = true /\ N.leb 2 max_txn_thread_num = true /\
+  rinit_real = rinit 100 24.
+Proof. vm_compute. repeat split. Qed.
+
+(** * Every call gets at most one reply, and it is the reply to its own statement *)
+
+(** One table entry per caller; the number of replies handed to caller [id]
+    is at most one, and it is one exactly when the caller is done. *)
+Theorem reply_at_most_once : forall c m s, reachable c m s ->
+  NoDup (map fst (callers s)) /\
+  forall id, occ id (replied s) <= 1 /\
+    (occ id (replied s) = 1 <-> exists r o, aget (callers s) id = Some (CDone r o)).
+Proof. exact reply_at_most_once_l. Qed.
+Print Assumptions reply_at_most_once.
+
+(** A caller that is done stays done with the same answer, whatever happens next. *)
+Theorem reply_is_final : forall s l s' id r o,
+  rstep s l = Some s' -> aget (callers s) id = Some (CDone r o) ->
+  aget (callers s') id = Some (CDone r o).
+Proof. exact done_stable_l. Qed.
+Print Assumptions reply_is_final.
+
+(** What a caller received is the result message of ITS request, with a final
+    outcome; that request committed exactly once and was answered exactly once. *)
+Theorem reply_is_own_result : forall c m s, reachable c m s ->
+  forall id r o, In (id, CDone r o) (callers s) ->
+    r = id /\ o = Ok /\ occ id (effects s) = 1 /\ occ id (replied s) = 1.
+Proof. exact reply_is_own_result_l. Qed.
+Print Assumptions reply_is_own_result.
+
+(** The aborted marker never reaches a caller: the loop never holds one for
+    delivery and no caller has one. *)
+Theorem aborted_never_delivered : forall c m s, reachable c m s ->
+  (forall id o, loop s = Delivering id o -> o = Ok) /\
+  (forall id r, ~ In (id, CDone r Aborted) (callers s)).
+Proof. exact aborted_never_delivered_l. Qed.
+Print Assumptions aborted_never_delivered.
+
+(** * Each statement takes effect at most once, however often it is retried *)
+
+(** A request commits at most once, and once it has committed it is neither
+    queued nor running any more (it cannot be executed again). *)
+Theorem effect_at_most_once : forall c m s, reachable c m s -> forall id,
+  occ id (effects s) <= 1 /\
+  (occ id (effects s) = 1 -> occ id (queue s) = 0 /\ occ id (workers s) = 0).
+Proof. exact effect_at_most_once_l. Qed.
+Print Assumptions effect_at_most_once.
+
+(** * Accounting *)
+
+(** curExectingReqNum = running workers + results not yet received; it never
+    exceeds MaxTxnThreadNum (so the uint64 decrement never wraps) and the
+    channel never holds more than its capacity. *)
+Theorem accounting_invariant : forall c m s, reachable c m s ->
+  cap s = c /\ maxw s = m /\
+  N.to_nat (inflight s) = length (workers s) + count is_result (chan s) /\
+  (inflight s <= maxw s)%N /\ length (chan s) <= N.to_nat (cap s).
+Proof. exact accounting_l. Qed.
+Print Assumptions accounting_invariant.
+
+(** Every request is in exactly one place — the queue, a worker, a result
+    message in the channel, the loop's hands, or answered — no duplication,
+    no loss, per request ([places], see Model/ReqMgr.v) and in total. *)
+Theorem each_request_exactly_one_place : forall c m s, reachable c m s ->
+  (forall id, places s id = known (callers s) id) /\
+  length (queue s) + length (workers s) + count is_result (chan s)
+    + delivering (loop s) + count is_done (callers s) = length (callers s).
+Proof. exact one_place_l. Qed.
+Print Assumptions each_request_exactly_one_place.
+
+Theorem each_request_exactly_one_place_cases : forall c m s, reachable c m s -> forall id,
+  (In id (queue s) \/ In id (workers s) -> aget (callers s) id <> None) /\
+  (aget (callers s) id <> None -> places s id = 1) /\
+  (aget (callers s) id = None -> places s id = 0).
+Proof. exact one_place_cases_l. Qed.
+Print Assumptions each_request_exactly_one_place_cases.
+
+(** * No stranded request *)
+
+(** The inductive invariant: the queue is longer than the number of pending
+    wake-ups (tokens in the channel, callers about to send one, the loop's
+    own pending dispatch) only while all [m] worker slots are taken. *)
+Theorem backlog_only_when_saturated : forall c m s, reachable c m s ->
+  length (queue s) <= count is_token (chan s) + count is_ens (callers s) + busy (loop s)
+  \/ N.to_nat m <= N.to_nat (inflight s) + busy (loop s).
+Proof. exact backlog_l. Qed.
+Print Assumptions backlog_only_when_saturated.
+
+(** A queued request with nothing left that would ever make the loop look at
+    the queue again. *)
+Definition stranded (s : rstate) : Prop :=
+  queue s <> [] /\ chan s = [] /\ workers s = [] /\ loop s = Idle /\
+  (forall id, aget (callers s) id <> Some Enqueued_not_signalled).
+
+Theorem no_stranding : forall c m s, (1 <= m)%N -> reachable c m s -> ~ stranded s.
+Proof. exact no_stranding_l. Qed.
+Print Assumptions no_stranding.
+
+(** Positive form: a non-empty queue always comes with a pending message, a
+    caller about to send one, a loop iteration in progress, or a worker. *)
+Theorem queued_request_has_pending_wakeup : forall c m s, (1 <= m)%N -> reachable c m s ->
+  queue s <> [] ->
+  0 < count is_token (chan s) + count is_ens (callers s) + busy (loop s)
+      + length (workers s) + count is_result (chan s).
+Proof. exact pending_work_l. Qed.
+Print Assumptions queued_request_has_pending_wakeup.
+
+(** With at least two worker slots (the real value is 24): when nothing is in
+    flight, every queued request still has its own wake-up pending. *)
+Theorem idle_backlog_bound : forall c m s, (2 <= m)%N -> reachable c m s ->
+  inflight s = 0%N ->
+  length (queue s) <= count is_token (chan s) + count is_ens (callers s) + busy (loop s).
+Proof. exact backlog_idle_l. Qed.
+Print Assumptions idle_backlog_bound.
+
+(** * Deadlock analysis *)
+
+(** [enabled] lists exactly the labels (other than new callers) that can fire. *)
+Theorem enabled_is_sound : forall s l, In l (enabled s) -> exists s', rstep s l = Some s'.
+Proof. exact enabled_sound. Qed.
+Print Assumptions enabled_is_sound.
+
+Theorem enabled_is_complete : forall s l s',
+  rstep s l = Some s' -> is_enqueue l = false -> In l (enabled s).
+Proof. exact enabled_complete. Qed.
+Print Assumptions enabled_is_complete.
+
+(** Everything has been answered and nothing is left to do. *)
+Definition quiescent (s : rstate) : Prop :=
+  queue s = [] /\ workers s = [] /\ chan s = [] /\ loop s = Idle /\
+  forall id st, In (id, st) (callers s) -> exists r o, st = CDone r o.
+
+(** F-REQ-DEADLOCK: the run loop is blocked handing a result to a caller that
+    is itself blocked sending its wake-up token into the full channel. *)
+Definition loop_caller_deadlock (s : rstate) : Prop :=
+  exists id o, loop s = Delivering id o /\
+    aget (callers s) id = Some Enqueued_not_signalled /\ chan_full s = true.
+
+(** Wanted: in every reachable state something can happen unless all callers
+    have their answer.  FALSE for the faithful model, see [no_deadlock_refuted]. *)
+Definition no_deadlock (c m : N) : Prop :=
+  forall s, reachable c m s -> enabled s <> [] \/ quiescent s.
+
+(** Refutation with the real parameters: 102 callers; caller 1 is descheduled
+    between the unlock and the token send of AppendRequest, its request is
+    dispatched (by caller 2's token), finishes and is received by the loop,
+    100 further callers fill the channel ([deadlock_schedule], Model/ReqMgr.v). *)
+Theorem no_deadlock_refuted : ~ no_deadlock chan_capacity max_txn_thread_num.
+Proof. exact no_deadlock_refuted_l. Qed.
+Print Assumptions no_deadlock_refuted.
+
+Theorem deadlock_at_real_capacity : exists s,
+  rrun (deadlock_schedule 100) rinit_real = Some s /\
+  loop s = Delivering 1%N Ok /\ aget (callers s) 1%N = Some Enqueued_not_signalled /\
+  count is_token (chan s) = 100 /\ chan_full s = true /\ enabled s = [] /\
+  length (callers s) = 102.
+Proof. exact deadlock_real_l. Qed.
+Print Assumptions deadlock_at_real_capacity.
+
+(** The same with capacity 2 and 4 callers (the shape used by the harness). *)
+Theorem deadlock_at_capacity_refuted : exists s,
+  rrun (deadlock_schedule 2) (rinit 2 24) = Some s /\
+  loop s = Delivering 1%N Ok /\ aget (callers s) 1%N = Some Enqueued_not_signalled /\
+  chan s = [Token; Token] /\ chan_full s = true /\ enabled s = [] /\
+  length (callers s) = 4.
+Proof. exact deadlock_small_l. Qed.
+Print Assumptions deadlock_at_capacity_refuted.
+
+(** Partial results.  (1) The loop/caller embrace is the ONLY way to get stuck. *)
+Theorem deadlock_characterisation : forall c m s, (1 <= c)%N -> (1 <= m)%N ->
+  reachable c m s -> enabled s = [] -> quiescent s \/ loop_caller_deadlock s.
+Proof. exact deadlock_characterisation_l. Qed.
+Print Assumptions deadlock_characterisation.
+
+Theorem no_deadlock_partial : forall c m s, (1 <= c)%N -> (1 <= m)%N ->
+  reachable c m s -> enabled s <> [] \/ quiescent s \/ loop_caller_deadlock s.
+Proof. exact no_deadlock_partial_l. Qed.
+Print Assumptions no_deadlock_partial.
+
+(** (2) While the channel has a free slot, something can happen unless every
+    caller is done and the queue, the workers and the channel are empty. *)
+Theorem no_deadlock_below_capacity : forall c m s, (1 <= c)%N -> (1 <= m)%N ->
+  reachable c m s -> chan_full s = false -> enabled s <> [] \/ quiescent s.
+Proof. exact no_deadlock_below_capacity_l. Qed.
+Print Assumptions no_deadlock_below_capacity.
+
+(** (3) The deadlock needs at least [c - m] tokens in the channel, each sent by
+    a different caller other than the victim ... *)
+Theorem deadlock_needs_capacity : forall c m s, reachable c m s -> loop_caller_deadlock s ->
+  N.to_nat c <= count is_token (chan s) + N.to_nat m /\
+  count is_token (chan s) + 1 <= length (callers s).
+Proof. exact deadlock_needs_l. Qed.
+Print Assumptions deadlock_needs_capacity.
+
+(** ... so it cannot happen while at most [c - m] (= 76) calls have been made. *)
+Theorem no_deadlock_few_callers : forall c m s, (1 <= c)%N -> (1 <= m)%N ->
+  reachable c m s -> length (callers s) + N.to_nat m <= N.to_nat c ->
+  enabled s <> [] \/ quiescent s.
+Proof. exact no_deadlock_few_callers_l. Qed.
+Print Assumptions no_deadlock_few_callers.
+
+(** * Every call is answered if aborts are finite (and the channel does not fill up) *)
+
+(** From any reachable state, once no new callers arrive, EVERY schedule is
+    short: at most [potential s] steps plus 4 per concurrency-control abort.
+    So with finitely many aborts the system cannot run forever without
+    answering, under any scheduler (no fairness assumption is needed: every
+    step other than an abort makes progress); and when it stops with a free
+    channel slot, every caller has its answer.  (When it stops with a full
+    channel it is in F-REQ-DEADLOCK, by [deadlock_characterisation].) *)
+Theorem all_answered_if_finite_aborts : forall c m s ls s', (1 <= c)%N -> (1 <= m)%N ->
+  reachable c m s -> rrun ls s = Some s' -> no_enqueue ls = true ->
+  length ls <= potential s + 4 * count is_abort_finish ls /\
+  (enabled s' = [] -> chan_full s' = false ->
+   forall id st, In (id, st) (callers s') -> exists r o, st = CDone r o).
+Proof. exact all_answered_l. Qed.
+Print Assumptions all_answered_if_finite_aborts.
+
+(** * Non-vacuity *)
+
+(** Three callers, two worker slots, request 1 aborted once and retried: all
+    three are answered with their own result, each statement committed once,
+    and the system is quiescent. *)
+Example c12_nonvacuous_retry :
+  let sched := [Enqueue 1; Enqueue 2; Enqueue 3; SendToken 1; SendToken 2; SendToken 3;
+                LoopRecv; Dispatch; LoopRecv; Dispatch; LoopRecv; Dispatch;
+                WorkerFinish 1 Aborted; WorkerFinish 2 Ok;
+                LoopRecv; Dispatch; LoopRecv; Deliver 2; Dispatch;
+                WorkerFinish 1 Ok; WorkerFinish 3 Ok;
+                LoopRecv; Deliver 1; Dispatch; LoopRecv; Deliver 3; Dispatch]%N in
+  match rrun sched (rinit 100 2) with
+  | Some s =>
+      callers s = [(3, CDone 3 Ok); (2, CDone 2 Ok); (1, CDone 1 Ok)]%N /\
+      replied s = [3; 1; 2]%N /\ effects s = [3; 1; 2]%N /\
+      queue s = [] /\ workers s = [] /\ chan s = [] /\ inflight s = 0%N /\
+      enabled s = [] /\ count is_abort_finish sched = 1
+  | None => False
+  end.
+Proof. vm_compute. repeat split. Qed.
+
+(** After the abort the request is back at the HEAD of the queue, and the third
+    request (which found both slots taken) is dispatched by the iteration that
+    received the second result: one dispatch per received message. *)
+Example c12_nonvacuous_requeue_at_head :
+  match rrun [Enqueue 1; Enqueue 2; Enqueue 3; SendToken 1; SendToken 2; SendToken 3;
+              LoopRecv; Dispatch; LoopRecv; Dispatch; LoopRecv; Dispatch;
+              WorkerFinish 1 Aborted; LoopRecv]%N (rinit 100 2) with
+  | Some s => queue s = [1; 3]%N /\ workers s = [2]%N /\ inflight s = 1%N /\
+              loop s = Dispatching /\ enabled s = [Dispatch; WorkerFinish 2 Ok; WorkerFinish 2 Aborted]%N
+  | None => False
+  end.
+Proof. vm_compute. repeat split. Qed.
+
+(** Labels that are not enabled are rejected: a second reply, a token from a
+    caller that already sent one, delivery to a caller that has not sent its
+    token yet, a worker that does not exist. *)
+Example c12_nonvacuous_rejections :
+  rrun [Enqueue 1; SendToken 1; SendToken 1]%N (rinit 100 24) = None /\
+  rrun [Enqueue 1; Enqueue 1]%N (rinit 100 24) = None /\
+  rrun [Enqueue 1; Enqueue 2; SendToken 2; LoopRecv; Dispatch; WorkerFinish 1 Ok; LoopRecv;
+        Deliver 1]%N (rinit 100 24) = None /\
+  rrun [Enqueue 1; SendToken 1; LoopRecv; Dispatch; WorkerFinish 1 Ok; LoopRecv; Deliver 1;
+        Deliver 1]%N (rinit 100 24) = None /\
+  rrun [Enqueue 1; SendToken 1; WorkerFinish 1 Ok]%N (rinit 100 24) = None.
+Proof. vm_compute. repeat split. Qed.
+
+(** The side condition [2 <= m] of [idle_backlog_bound] is needed: with one
+    worker slot the bound fails. *)
+Example c12_idle_backlog_needs_two_slots : exists s,
+  reachable 100 1 s /\ inflight s = 0%N /\ length (queue s) = 2 /\
+  count is_token (chan s) + count is_ens (callers s) + busy (loop s) = 1.
+Proof. exact backlog_idle_needs_two_l. Qed.
